@@ -11,7 +11,7 @@ from ..core import AnchorError, Undecided
 from ..hirq import walk
 from ..hirx import Scope
 
-CRATES = ["apollo_compiler"]
+CRATES = ["apollo_parser", "apollo_compiler"]
 LEVEL = "other"
 EXPLANATION = """
 C24.FIELDS: each of the seven introspection resolvers (__Schema, __Type for definitions, __Type for
@@ -434,3 +434,10 @@ def run(prog, rep):
     rule_deprecated(prog, rep)
     rep.assume("the executor (C26) calls resolve_field with the field name of a validated introspection query; built_in_types.graphql is the introspection schema the crate validates queries against")
     rep.note("equality of introspection responses with graphql-js, ordering inside lists beyond map order, and the serialized form of defaultValue (C08/C09) are not decided")
+    # `description`, `deprecationReason` and string default values are what the string decoder made
+    # of the source literals: the block-string algorithm (common indentation without the first
+    # line, blank first / last lines removed) and the escape table are decided by C06, shared
+    from .C06 import rule_block, rule_esc, rule_indent
+    rule_esc(prog, rep)
+    rule_block(prog, rep)
+    rule_indent(prog, rep)
